@@ -88,6 +88,26 @@ def check(ctx, case):
 	from gambit.sigs.base import SignaturesFileError
 	sc = dbutil.Scratch('gv_c12_')
 	try:
+		if case['kind'] == 'rt-huge':
+			# signatures beyond 2^20 values (a size no other stream reaches), described compactly: signature i = every `step`-th index from
+			# `start`; written through the chosen container, loaded, and compared value for value (digests of the canonical bytes: the
+			# specification of a round trip is the identity)
+			import hashlib
+			k = case['k']
+			kspec = KmerSpec(k, 'ATGAC')
+			sigs = [np.arange(st, st + n * step, step, dtype=kspec.index_dtype) for st, step, n in case['runs']]
+			cont = case['cont']
+			coll = SignatureArray(sigs, kspec) if cont == 'array' else SignatureList(sigs, kspec)
+			if cont.startswith('annotated'):
+				coll = AnnotatedSignatures(SignatureList(sigs, kspec) if cont == 'annotated-list' else SignatureArray(sigs, kspec), np.arange(len(sigs)), SignaturesMeta(id='huge'))
+			p = sc.path('huge.gs')
+			dump_signatures(p, coll, **({'compression': case['compression']} if case.get('compression') else {}))
+			dig = lambda arrs: hashlib.sha256(b'|'.join(np.ascontiguousarray(a, dtype='u8').tobytes() for a in arrs)).hexdigest()[:24] + f':{len(arrs)}:' + ','.join(str(len(a)) for a in arrs)
+			with load_signatures(p) as back:
+				got = [np.asarray(back[i]) for i in range(len(back))]
+				pf = [] if (back.kmerspec == kspec and back.dtype == kspec.index_dtype) else ['k-mer parameters or type of the loaded collection differ']
+			case['_nt'] = True
+			return [f'c11.same huge-roundtrip {dig(sigs)} {dig(got)}'], pf
 		if case['kind'] == 'foreign':
 			p = sc.path('foreign' + case.get('ext', '.gs'))
 			what = case['what']
@@ -224,7 +244,7 @@ def run(ctx):
 	def sub(case, tag):
 		lines, pf = safe_check(check, ctx, case)
 		nt = case.pop('_nt', False)
-		ctx.submit(case, lines, nontrivial=nt, tags=[tag] + ([f'cont={case["cont"]}', f'ids={case["ids"]}', f'comp={case.get("compression")}', f'w={(case["k"]+3)//4}'] if case['kind'] == 'rt' else []), pyfails=pf)
+		ctx.submit(case, lines, nontrivial=nt, tags=[tag] + ([f'cont={case["cont"]}', f'ids={case["ids"]}', f'comp={case.get("compression")}', f'w={(case["k"]+3)//4}'] if case['kind'] == 'rt' else ([f'cont={case["cont"]}'] if case['kind'] == 'rt-huge' else [])), pyfails=pf)
 
 	for what in ['empty', 'text', 'fasta', 'gzip', 'hdf5-other']:
 		for ext in ['.gs', '.h5', '.txt']:
@@ -250,6 +270,12 @@ def run(ctx):
 		sub({'kind': 'rt', 'k': k, 'prefix': 'ATGAC', 'sigs': sigs, 'cont': rng.choice(['array', 'list', 'annotated-array', 'annotated-list', 'window']),
 		     'ids': rng.choice(['default', 'strlist', 'intlist']), 'ids_seed': rng.randrange(10 ** 6), 'meta': None,
 		     'compression': rng.choice([None, None, 'gzip', 'lzf']), 'indexes': [{'t': 'int', 'i': -1}, {'t': 'slice', 'a': None, 'b': None, 'c': -1}]}, 'roundtrip-large')
+	# signatures of more than 2^20 values, followed by further non-empty ones (every container; the per-signature write path copies them one by one)
+	M = 1 << 20
+	for j, cont in enumerate(['list', 'annotated-list', 'array'] + (['annotated-array', 'list', 'list'] if ctx.tier == 'thorough' or ctx.tie_broken else [])):
+		runs = [(rng.randrange(100), 1, rng.randint(1, 9)), (rng.randrange(50), rng.choice([1, 2, 3]), M + rng.choice([1, 7, 4096])), (5, 2, rng.randint(1, 40)),
+		        (0, 1, 0), (rng.randrange(9), 1, rng.choice([M, 2 * M + 1, M - 1])), (3, 1, 4)]
+		sub({'kind': 'rt-huge', 'k': rng.choice([11, 12, 16]), 'runs': runs if j % 2 == 0 else runs[1:], 'cont': cont, 'compression': rng.choice([None, None, 'gzip'])}, 'roundtrip-huge')
 	ks = list(range(1, 33))
 	for j in range(ctx.q(700, 5000)):
 		if not ctx.time_left(0.92):
